@@ -15,6 +15,7 @@ import (
 	"os"
 	"path/filepath"
 	"sort"
+	"sync"
 	"time"
 
 	"filippo.io/mldsa"
@@ -31,7 +32,37 @@ type DiskLog struct {
 	W       *World
 	Truth   []*RefEntry
 	Backend ctlog.Backend
+	FailKeys *failKeyBackend
 	Limit   time.Time
+}
+
+// failKeyBackend passes everything to the wrapped backend except uploads of
+// the keys listed in fail, which return an error without touching the disk
+// (a checkpoint upload that did not happen: the process stopped or the
+// request failed after the tiles were written).
+type failKeyBackend struct {
+	ctlog.Backend
+	mu   sync.Mutex
+	fail map[string]bool
+}
+
+func (b *failKeyBackend) setFail(key string, on bool) {
+	b.mu.Lock()
+	defer b.mu.Unlock()
+	if b.fail == nil {
+		b.fail = map[string]bool{}
+	}
+	b.fail[key] = on
+}
+
+func (b *failKeyBackend) Upload(ctx context.Context, key string, data []byte, opts *ctlog.UploadOptions) error {
+	b.mu.Lock()
+	f := b.fail[key]
+	b.mu.Unlock()
+	if f {
+		return fmt.Errorf("verif: upload of %s did not happen", key)
+	}
+	return b.Backend.Upload(ctx, key, data, opts)
 }
 
 func (d *DiskLog) LogID() [32]byte {
@@ -46,9 +77,10 @@ func newDiskLog(rng *Rng, dir, name string) *DiskLog {
 	if err != nil {
 		panic(err)
 	}
-	d.Backend = b
+	d.FailKeys = &failKeyBackend{Backend: b}
+	d.Backend = d.FailKeys
 	d.Cfg = &ctlog.Config{Name: name, Key: d.Key, WitnessKey: d.WKey, Cache: filepath.Join(filepath.Dir(dir), filepath.Base(dir)+"-cache.db"),
-		Backend: b, Lock: &LockBackend{In: NewInst(d.W, name)}, Log: discardLogger,
+		Backend: d.Backend, Lock: &LockBackend{In: NewInst(d.W, name)}, Log: discardLogger,
 		NotAfterStart: time.Date(2024, 1, 1, 0, 0, 0, 0, time.UTC), NotAfterLimit: d.Limit}
 	if err := ctlog.CreateLog(context.Background(), d.Cfg); err != nil {
 		panic(err)
